@@ -990,9 +990,18 @@ def shape_memo_rule(ctx):
     return r
 
 
+def ctx_keep_rule(ctx):
+    """CTX-KEEP (= OWN-ARG in the distribution files, shared with C13): a sampler does not write the context it is
+    given.  A context overwritten by one batch of draws is the context the next batch -- and every later call --
+    is conditioned on: generating the samples in batches then changes their distribution."""
+    from .own_rules import arg_findings
+
+    return arg_findings(ctx, "CTX-KEEP", "the tensor the caller passed (the context) is overwritten by the draw, so later batches / calls are conditioned on something else: batching changes the distribution of the samples", lambda rel: "/distributions/" in "/" + rel or "/flows/" in "/" + rel or rel.endswith("nn/nde/made.py"))
+
+
 register(
     "C18",
-    [arg_check_rule, arg_entry_rule, batch_rule, sample_shape_rule, layout_rule, shape_memo_rule],
+    [arg_check_rule, arg_entry_rule, batch_rule, sample_shape_rule, layout_rule, shape_memo_rule, ctx_keep_rule],
     "ARG-CHECK: guard dominance in Distribution.log_prob (ValueError under context is not None and differing row counts, before "
     "_log_prob) and, by partial evaluation with every kind of invalid count, Distribution.sample (TypeError before the sampler is "
     "invoked). ARG-ENTRY: no public method of a Distribution subclass (Flow included) hands a count it has not validated with "
